@@ -212,3 +212,132 @@ Proof.
 Qed.
 
 End ScanSound.
+
+(* ------------------------------------------------------------------------------------------
+   findFirstCharDefault's anchor part (Model/Scan.v [ffc_default], runner.go:1382-1412) satisfies
+   (H1), given the C04 facts about the generated [Anchors] bits: a successful attempt of a program
+   whose Anchors has the Beginning bit happens at 0, Start: at Runtextstart, EndZ: at the end or just
+   before a final newline, End: at the end; and the Boyer-Moore prefix is present at every successful
+   attempt position.  The rest of the finder (reached when no anchor bit is set) is assumed sound. *)
+Section AnchorSound.
+Variable R : Type.
+Variable text : list Z.
+Variable rtl : bool.
+Variable anchors : Z.
+Variable ts : Z.
+Variable bm : option (Z -> bool).
+Variable rest : Z -> bool * Z.
+Variable exec : Z -> option R * Z.
+
+Let n := a_n text.
+Let succeeds (x : Z) : Prop := fst (exec x) <> None.
+
+Hypothesis Fbeg : abit anchors ANCH_BEGINNING = true ->
+  forall x, sc_in_text n x -> succeeds x -> x = 0.
+Hypothesis Fstart : abit anchors ANCH_START = true ->
+  forall x, sc_in_text n x -> succeeds x -> x = ts.
+Hypothesis Fendz : abit anchors ANCH_ENDZ = true ->
+  forall x, sc_in_text n x -> succeeds x -> x = n \/ (x = n - 1 /\ a_char text x = 10).
+Hypothesis Fend : abit anchors ANCH_END = true ->
+  forall x, sc_in_text n x -> succeeds x -> x = n.
+Hypothesis Fbm : forall is_match, bm = Some is_match ->
+  forall x, sc_in_text n x -> succeeds x -> is_match x = true.
+Hypothesis Frest_t : sc_H1_true R n rtl rest exec.
+Hypothesis Frest_f : sc_H1_false R n rtl rest exec.
+
+Lemma sc_anchor_fails : forall x p,
+  sc_in_text n x ->
+  (succeeds x ->
+   (abit anchors ANCH_BEGINNING = true -> x = 0) ->
+   (abit anchors ANCH_START = true -> x = ts) ->
+   (abit anchors ANCH_ENDZ = true -> x = n \/ (x = n - 1 /\ a_char text x = 10)) ->
+   (abit anchors ANCH_END = true -> x = n) ->
+   (x = p -> a_char text x = a_char text p) ->
+   (forall is_match, bm = Some is_match -> is_match x = true) -> False) ->
+  sc_fails R exec x.
+Proof.
+  intros x p Hx H. unfold sc_fails. destruct (fst (exec x)) as [r|] eqn:Ex; [exfalso | reflexivity].
+  assert (Hs : succeeds x) by (unfold succeeds; congruence).
+  apply H; auto; try (intros ->; reflexivity); try (intros im Him; eapply Fbm; eauto).
+Qed.
+
+Ltac anc_lia := unfold sc_in_text, sc_ord, sc_before in *; unfold n in *; cbv beta iota in *; lia.
+
+Theorem sc_anchor_H1 :
+  sc_H1_true R n rtl (ffc_default text rtl anchors ts bm rest) exec /\
+  sc_H1_false R n rtl (ffc_default text rtl anchors ts bm rest) exec.
+Proof.
+  assert (Hn : 0 <= n) by (unfold n, a_n, zlen; lia).
+  pose proof sc_anchor_fails as AF.
+  split; intros p q Hp Hf; unfold ffc_default in Hf;
+    (destruct (abit anchors (ANCH_BEGINNING + ANCH_START + ANCH_ENDZ + ANCH_END)) eqn:Eany;
+     [| first [exact (Frest_t p q Hp Hf) | exact (Frest_f p q Hp Hf)]]).
+  - (* found = true *)
+    destruct rtl; cbn [negb] in Hf.
+    + destruct ((abit anchors ANCH_END && (p <? a_n text))
+                || (abit anchors ANCH_ENDZ &&
+                    ((p <? a_n text - 1) || ((p =? a_n text - 1) && negb (a_char text p =? 10))))
+                || (abit anchors ANCH_START && (p <? ts))) eqn:E1.
+      { destruct bm; discriminate. }
+      destruct (abit anchors ANCH_BEGINNING && (0 <? p)) eqn:E2.
+      * assert (q = 0) by (destruct bm; inversion Hf; reflexivity). subst q.
+        repeat split; try anc_lia.
+        intros x Hx1 Hx2. apply (AF x p); [anc_lia|]. intros. anc_lia.
+      * assert (q = p) by (destruct bm; inversion Hf; reflexivity). subst q.
+        repeat split; anc_lia.
+    + destruct ((abit anchors ANCH_BEGINNING && (0 <? p)) || (abit anchors ANCH_START && (ts <? p))) eqn:E1.
+      { destruct bm; discriminate. }
+      destruct (abit anchors ANCH_ENDZ && (p <? a_n text - 1)) eqn:E2.
+      * assert (q = n - 1) by (destruct bm; inversion Hf; reflexivity). subst q.
+        repeat split; try anc_lia.
+        intros x Hx1 Hx2. apply (AF x p); [anc_lia|]. intros. anc_lia.
+      * destruct (abit anchors ANCH_END && (p <? a_n text)) eqn:E3.
+        -- assert (q = n) by (destruct bm; inversion Hf; reflexivity). subst q.
+           repeat split; try anc_lia.
+           intros x Hx1 Hx2. apply (AF x p); [anc_lia|]. intros. anc_lia.
+        -- assert (q = p) by (destruct bm; inversion Hf; reflexivity). subst q.
+           repeat split; anc_lia.
+  - (* found = false: gave up (far end), or the Boyer-Moore prefix is absent at the jumped-to position *)
+    destruct rtl; cbn [negb] in Hf.
+    + destruct ((abit anchors ANCH_END && (p <? a_n text))
+                || (abit anchors ANCH_ENDZ &&
+                    ((p <? a_n text - 1) || ((p =? a_n text - 1) && negb (a_char text p =? 10))))
+                || (abit anchors ANCH_START && (p <? ts))) eqn:E1.
+      { inversion Hf; subst q. repeat split; try anc_lia.
+        intros x Hx1 Hx2. apply (AF x p); [anc_lia|]. intros. anc_lia. }
+      destruct bm as [im|] eqn:Ebm; [|destruct (abit anchors ANCH_BEGINNING && (0 <? p)); discriminate].
+      destruct (abit anchors ANCH_BEGINNING && (0 <? p)) eqn:E2; inversion Hf as [[Him Hq]]; subst q.
+      * repeat split; try anc_lia.
+        intros x Hx1 Hx2. apply (AF x p); [anc_lia|]. intros Hs H1 H2 H3 H4 H5 H6.
+        specialize (H6 im eq_refl).
+        assert (Hc : x = 0 \/ x <> 0) by lia. destruct Hc as [->|Hc]; [congruence | anc_lia].
+      * repeat split; try anc_lia.
+        intros x Hx1 Hx2. assert (x = p) by anc_lia. subst x.
+        apply (AF p p); [anc_lia|]. intros Hs H1 H2 H3 H4 H5 H6.
+        specialize (H6 im eq_refl). congruence.
+    + destruct ((abit anchors ANCH_BEGINNING && (0 <? p)) || (abit anchors ANCH_START && (ts <? p))) eqn:E1.
+      { inversion Hf; subst q. repeat split; try anc_lia.
+        intros x Hx1 Hx2. apply (AF x p); [anc_lia|]. intros. anc_lia. }
+      destruct bm as [im|] eqn:Ebm.
+      2:{ destruct (abit anchors ANCH_ENDZ && (p <? a_n text - 1));
+          [|destruct (abit anchors ANCH_END && (p <? a_n text))]; discriminate. }
+      destruct (abit anchors ANCH_ENDZ && (p <? a_n text - 1)) eqn:E2.
+      * inversion Hf as [[Him Hq]]; subst q. repeat split; try anc_lia.
+        intros x Hx1 Hx2. apply (AF x p); [anc_lia|]. intros Hs H1 H2 H3 H4 H5 H6.
+        specialize (H6 im eq_refl).
+        assert (Hc : x = a_n text - 1 \/ x <> a_n text - 1) by lia.
+        destruct Hc as [->|Hc]; [congruence | anc_lia].
+      * destruct (abit anchors ANCH_END && (p <? a_n text)) eqn:E3;
+          inversion Hf as [[Him Hq]]; subst q.
+        -- repeat split; try anc_lia.
+           intros x Hx1 Hx2. apply (AF x p); [anc_lia|]. intros Hs H1 H2 H3 H4 H5 H6.
+           specialize (H6 im eq_refl).
+           assert (Hc : x = a_n text \/ x <> a_n text) by lia.
+           destruct Hc as [->|Hc]; [congruence | anc_lia].
+        -- repeat split; try anc_lia.
+           intros x Hx1 Hx2. assert (x = p) by anc_lia. subst x.
+           apply (AF p p); [anc_lia|]. intros Hs H1 H2 H3 H4 H5 H6.
+           specialize (H6 im eq_refl). congruence.
+Qed.
+
+End AnchorSound.
